@@ -11,7 +11,7 @@ theorem pinv_setPsk' (cfg : Cfg) (s : St) (d : Doc) (a : PArg) (h : pinv cfg s d
      | some d' => (stepR cfg s (.setPsk a)).2.isNone && pinv cfg (stepR cfg s (.setPsk a)).1 d') = true := by
   have hi := (setters_inv cfg s (.setPsk a) (Or.inl rfl) (pinv_inv h)).1
   have hgl := inv_golang_unlocked (pinv_inv h)
-  obtain ⟨hasCache, state, locked, tracker, calling, status, tRef, pRef, specT, userT, specP, userP, lT, lP, hsS, hsE, hT, hP, raw, ts, shares, filled, held, done⟩ := s
+  obtain ⟨hasCache, state, locked, tracker, calling, status, tRef, pRef, specT, userT, specP, userP, lT, lP, hsS, hsE, hT, hP, raw, ts, shares, filled, held, done, bfresh⟩ := s
   obtain ⟨cache, built, ddone, injT, injP, fresh⟩ := d
   obtain ⟨golang, custom, cT, cP, skip, disabled⟩ := cfg
   cases ddone <;> cases cache <;> simp only [legalStep, Bool.false_eq_true, Bool.true_or, Bool.or_true, Bool.or_false, Bool.not_true, Bool.not_false, if_false, if_true, reduceCtorEq]
